@@ -112,3 +112,32 @@ Definition ext_of (nb : N -> list N) (dmax d i : N) : list N :=
   let k := 4 ^ (dmax - d) in
   let subs := nseqN (i * k) (N.to_nat k) in
   filter (fun n => negb ((i * k <=? n) && (n <? (i + 1) * k))) (flat_map nb subs).
+
+(** ---------- hole filling (RangeMOC::fill_holes / fill_holes_smaller_than) ----------
+    the complement of the MOC is split (edge-or-vertex external edges); fill_holes(n) sorts the components by
+    decreasing coverage (stable sort) and adds all of them but the 1 + n largest; fill_holes_smaller_than(f)
+    adds the components whose coverage is <= f.  The coverage of a component is its number of cells of depth
+    dmax over 12 x 4^dmax: compared here as integers (the implementation compares the f64 quotients, which
+    order in the same way as long as the cell counts are below 2^53). *)
+Definition comp_area (dmax : N) (comp : list (N * N)) : N :=
+  fold_left (fun acc c => acc + 4 ^ (dmax - fst c)) comp 0.
+
+Fixpoint insert_desc (dmax : N) (x : list (N * N)) (l : list (list (N * N))) : list (list (N * N)) :=
+  match l with
+  | [] => [x]
+  | y :: t => if comp_area dmax y <=? comp_area dmax x then x :: l else y :: insert_desc dmax x t
+  end.
+Definition sort_desc (dmax : N) (l : list (list (N * N))) : list (list (N * N)) := fold_right (insert_desc dmax) [] l.
+
+Definition ff_fill (maxd dmax : N) (ext : N -> N -> list N) (cmp_cells : list (N * N)) (except : nat) : option (list (list (N * N))) :=
+  match ff_split maxd dmax ext cmp_cells with
+  | Some comps => Some (skipn (S except) (sort_desc dmax comps))
+  | None => None
+  end.
+
+(** coverage <= num / den *)
+Definition ff_fill_smaller (maxd dmax : N) (ext : N -> N -> list N) (cmp_cells : list (N * N)) (num den : N) : option (list (list (N * N))) :=
+  match ff_split maxd dmax ext cmp_cells with
+  | Some comps => Some (filter (fun c => comp_area dmax c * den <=? num * (12 * 4 ^ dmax)) comps)
+  | None => None
+  end.
